@@ -237,7 +237,8 @@ def main(tier, seed):
                         os.makedirs(res.replay_dir, exist_ok=True)
                         open(path, "wb").write(data)
                         res.violation("%s: %s" % (what, bad), {"input_file": path, "strict": strict,
-                                      "replay": "%s %s %s /tmp/out.p21" % (p21read, "-s" if strict else "", path)})
+                                      "replay": "%s %s %s /tmp/out.p21" % (p21read, "-s" if strict else "", path)},
+                                      signature=("complex_part_errors_dropped" if where == "complex_part" and not optional else None))
                         continue
                     # correspondence with the model: hooked instance severities -> file severity / exit
                     order_ids = [i["id"] for i in order]
